@@ -301,6 +301,8 @@ pub(crate) async fn handle_run<'a>(
         &argmap,
     )?;
 
+    #[cfg(pnordahl_monorail_verif)]
+    crate::verif::point("run.pre_exec");
     let run_output = run_internal(
         cfg,
         plan,
@@ -311,11 +313,17 @@ pub(crate) async fn handle_run<'a>(
     )
     .await?;
 
+    #[cfg(pnordahl_monorail_verif)]
+    crate::verif::point("run.post_exec");
     // Store the run output record
     store_run_output(&run_output, &run_path)?;
 
     // Update the run counter
+    #[cfg(pnordahl_monorail_verif)]
+    crate::verif::point("run.pre_pointer");
     tracking_run.save()?;
+    #[cfg(pnordahl_monorail_verif)]
+    crate::verif::point("run.post_pointer");
     Ok(run_output)
 }
 
@@ -601,8 +609,14 @@ fn setup_run_path(
 ) -> Result<path::PathBuf, MonorailError> {
     let run_path = cfg.get_run_path(work_path).join(format!("{}", run_id));
     // remove the run_path path if it exists, and create a new one
+    #[cfg(pnordahl_monorail_verif)]
+    crate::verif::point("slot.pre_wipe");
     std::fs::remove_dir_all(&run_path).unwrap_or(());
+    #[cfg(pnordahl_monorail_verif)]
+    crate::verif::point("slot.post_wipe");
     std::fs::create_dir_all(&run_path)?;
+    #[cfg(pnordahl_monorail_verif)]
+    crate::verif::point("slot.post_create");
     Ok(run_path)
 }
 
@@ -970,8 +984,22 @@ async fn process_plan(
 
             crr.target_groups.push(result_target_group);
 
+            #[cfg(pnordahl_monorail_verif)]
+            crate::verif::point("group.post_join");
+            #[cfg(pnordahl_monorail_verif)]
+            let mut verif_send = 0usize;
             for client in compressor_clients {
+                #[cfg(pnordahl_monorail_verif)]
+                {
+                    crate::verif::point(&format!("group.pre_shutdown:{}", verif_send));
+                    verif_send += 1;
+                }
                 client.0.shutdown().await?;
+                #[cfg(pnordahl_monorail_verif)]
+                {
+                    crate::verif::point(&format!("group.pre_shutdown:{}", verif_send));
+                    verif_send += 1;
+                }
                 client.1.shutdown().await?;
             }
             // Unwrap for thread dyn Any panic contents, which isn't easily mapped to a MonorailError
@@ -1016,10 +1044,14 @@ fn store_run_output(run_output: &RunOutput, run_path: &path::Path) -> Result<(),
         .truncate(true)
         .open(run_path.join(result::RESULT_OUTPUT_FILE_NAME))
         .map_err(|e| MonorailError::Generic(e.to_string()))?;
+    #[cfg(pnordahl_monorail_verif)]
+    crate::verif::point("result.post_open");
     let bw = BufWriter::new(run_result_file);
     let mut encoder = zstd::stream::write::Encoder::new(bw, 3)?;
     serde_json::to_writer(&mut encoder, run_output)?;
     encoder.finish()?;
+    #[cfg(pnordahl_monorail_verif)]
+    crate::verif::point("result.post_write");
     Ok(())
 }
 
